@@ -9,13 +9,16 @@ package util
 // size() and wf() are per-kind spec functions (uninterpreted for a value of unknown dynamic type).
 //@ iface Message
 //@ method Len() (n) [C06 C13 C01 C02]
-//@   requires wf(self)
+//@   requires wfl(self)
 //@   ensures n == uint16(size(self))
 //@   ensures size(self) == old(size(self)) && (old(wf(self)) ==> wf(self))
 //@ method MarshalBinary() (data, err) [C06 C13 C01 C02]
 //@   requires wf(self) && size(self) <= 65535
 //@   ensures err == nil && len(data) == old(size(self))
-//@   ensures size(self) == old(size(self)) && wf(self)
+//@   ensures size(self) == old(size(self)) && wf(self) && wfl(self)
 
 //@ spec size(b *Buffer) = blen(b)
 //@ spec wf(b *Buffer) = true
+// wfl(x): what Len() needs from its receiver (non-nil embedded headers and children); weaker than wf(x) and
+// established by every successful decoder, so decoders may size what they have just decoded.
+//@ spec wfl(b *Buffer) = true
